@@ -156,6 +156,16 @@ mut("C10-copy-shares-sequence", BAR, "cpy = self.__class__(self.sequence.copy(),
 mut("C10-copy-drops-key", BAR, "self.time_signature_numerator, self.time_signature_denominator, self.key_signature)", "self.time_signature_numerator, self.time_signature_denominator)", ["C10", "C16"])
 mut("C10-capacity-ge", BAR, "if self.sequence.get_sequence_duration_relation() * PPQN > self.time_signature_numerator", "if self.sequence.get_sequence_duration_relation() * PPQN >= self.time_signature_numerator", ["C09"])
 
+# C09
+mut("C09-ts-strictly-before", SEQ, "time_signature = next((timing for timing in time_signature_timings if timing[0] <= current_point_in_time)", "time_signature = next((timing for timing in time_signature_timings if timing[0] < current_point_in_time)", ["C09"])
+mut("C09-ts-popped-twice", SEQ, "                time_signature_timings.pop(0)\n", "                time_signature_timings.pop(0)\n                if len(time_signature_timings) > 1:\n                    time_signature_timings.pop(0)\n", ["C09"])
+mut("C09-placeholder-omitted", SEQ, "                    if len(split_up) == 0:\n                        split_up.append(Sequence())\n                    sequences[i] = Sequence()", "                    if len(split_up) == 0:\n                        continue\n                    sequences[i] = Sequence()", ["C09"])
+mut("C09-key-not-carried", SEQ, "            if key_signature is not None:\n                key_signature_timings.pop(0)\n                current_key = key_signature[1].key", "            current_key = None\n            if key_signature is not None:\n                key_signature_timings.pop(0)\n                current_key = key_signature[1].key", ["C09"])
+mut("C09-key-strictly-before", SEQ, "key_signature = next((timing for timing in key_signature_timings if timing[0] <= current_point_in_time)", "key_signature = next((timing for timing in key_signature_timings if timing[0] < current_point_in_time)", ["C09"])
+mut("C09-requant-extends", SEQ, "sequence_to_add.quantise_note_lengths(do_not_extend=True)", "sequence_to_add.quantise_note_lengths(do_not_extend=False)", ["C09"])
+mut("C09-requant-always", SEQ, "                if quantise_note_lengths:\n                    sequence_to_add", "                if True:\n                    sequence_to_add", ["C09"])
+mut("C09-default-3-4", SEQ, "        current_ts_numerator = 4\n        current_ts_denominator = 4\n        current_key = None", "        current_ts_numerator = 3\n        current_ts_denominator = 4\n        current_key = None", ["C09"])
+
 
 def run(cmd, env):
     p = subprocess.run(cmd, cwd=ROOT, env=env, capture_output=True, text=True)
